@@ -96,6 +96,19 @@ func NewServerSideReader(r io.Reader) *Reader {
 // The error is ErrNoFrameAdvance if no NextFrame() call was made before
 // reading next message bytes.
 func (r *Reader) Read(p []byte) (n int, err error) {
+	for {
+		n, err = r.read(p)
+		if n != 0 || err != nil || len(p) == 0 || r.frame != nil {
+			return n, err
+		}
+		// An intermediate control frame was handled or an empty fragment was
+		// passed: go on with the next frame instead of reporting "no data, no
+		// error", which buffered readers tolerate only a limited number of
+		// times in a row.
+	}
+}
+
+func (r *Reader) read(p []byte) (n int, err error) {
 	if r.frame == nil {
 		if !r.fragmented() {
 			// Every new Read() must be preceded by NextFrame() call.
